@@ -13,7 +13,7 @@ TREE_SER, EL_FIT, EL_SHORT, PARSE, STREAM, EDIT = 1, 2, 4, 8, 16, 32
 
 
 def run(ctx):
-    exe = ctx.driver('c09_tlv', ['c09_tlv.c'])
+    exe = ctx.driver('c09_tlv', ['c09_tlv.c'], wraps=('recv',))
     quick = ctx.tier == 'quick'
     seed = ctx.seed
     k = 1 if quick else 20          # multiplier for the random tree populations
